@@ -45,7 +45,7 @@ def oracle_for(_d):
 
 
 def cases_for(ctx):
-    u = [t for t in ordlib.universe(ctx.tier) if not ordlib.noncanonical(t)]
+    u = [t for t in ordlib.universe(ctx.tier) if not ordlib.noncanonical(t, padded_ok=t[0] == "g")]
     shown = [etf.show(t) for t in u]
     cases = ["cmp %s | %s" % (x, y) for x in shown for y in shown]
     return u, cases
